@@ -447,6 +447,12 @@ def run_verus_unit(unit, width, results, key):
                    fns=[fname] if src else [], source=src, time_ms=f['time_us'] / 1000.0, rlimit=f['rlimit'], cached=False)
         if f['success']:
             rec['status'] = 'pass'
+        elif not src:
+            # a lemma or prelude shim is independent of /repo's code: its failure is proof instability
+            # (solver context effects), never evidence against the code
+            rec['status'] = 'undecided'
+            rec['soft'] = True
+            rec['reason'] = 'verus: code-independent lemma/shim not re-proved in this context (proof instability)'
         else:
             es = by_fn.get(short, [])
             kinds = set(k for k, _ in es)
